@@ -201,6 +201,10 @@ impl File {
         Ok(())
     }
     fn do_write_at(&self, buf: &[u8], off: u64) -> usize {
+        if kernel::tearing_down() {
+            // a BufWriter flushed by a destructor while the finished execution is unwound
+            return buf.len();
+        }
         let (node, ino) = (self.node, self.ino);
         mutating(
             node,
@@ -250,6 +254,9 @@ impl Write for File {
         }
         if buf.is_empty() {
             return Ok(0);
+        }
+        if kernel::tearing_down() {
+            return Ok(buf.len());
         }
         let off = if self.append { self.len() } else { self.pos };
         let n = self.do_write_at(buf, off);
